@@ -1,4 +1,4 @@
-(** C15: concrete witness of the remaining finding class and regression examples, evaluated on the
+(** C15: regression examples (the witnesses of the four repaired finding classes), evaluated on the
     model instantiated with the Go decoders (dedup key = octets that get
     hashed, object name = content; i.e. a collision-free sha256). *)
 From Coq Require Import String Ascii List Bool Arith.
@@ -17,11 +17,6 @@ Definition grun := run go_key go_okey.
 Definition gread s3on evs m k o : option (option str) :=
   match row_of (grun evs) m k with
   | Some row => Some (rd (read_part s3on (grun evs) row o))
-  | None => None
-  end.
-Definition gclass evs m k : option finding :=
-  match row_of (grun evs) m k with
-  | Some row => classify go_okey (grun evs) row
   | None => None
   end.
 Definition gfailed s3on evs m k o : bool :=
@@ -48,7 +43,6 @@ Definition wit_dedup : list event :=
    EStore false [] [] [mkPart (S_ "base64") (S_ "QUJDRA==") true]].
 
 Lemma dedup_encoding_repaired :
-  gclass wit_dedup 1 0 = None /\
   gown wit_dedup 1 0 = Some (S_ "QUJDRA==") /\
   gread false wit_dedup 1 0 [] = Some (Some (S_ "QUJDRA==")) /\
   violates false wit_dedup 1 0 [] = false /\
@@ -60,27 +54,31 @@ Proof. vm_compute. repeat split; reflexivity. Qed.
 Lemma old_dedup_violates_spec : spec_read_ok (S_ "QUJDRA==") false (Some (S_ "ABCD")) = false.
 Proof. vm_compute. reflexivity. Qed.
 
-(** residual class: an EMPTY named part stored by a writer without S3 after a
-    writer with S3 stored a base64 part whose text is one CRLF (decodes to
-    nothing): same hash, blobHoldsContent compares GetBlob's "" for the S3 row
-    with the empty content and keeps the link; a reader with S3 gets CRLF *)
+(** former class EmptyPartS3Blob (residual of 573e876), repaired by 03ae0ff:
+    an EMPTY named part stored by a writer without S3 after a writer with S3
+    stored a base64 part whose text is one CRLF (decodes to nothing): same hash,
+    but an S3 row does not hold a part that this store did not put into S3, so
+    the reference is given back and the part stays inline — regression example *)
 Definition wit_empty : list event :=
   [EStore true [] [] [mkPart (S_ "base64") crlf true];
    EStore false [] [] [mkPart [] [] true]].
 
-Lemma refuted_empty_part_s3_blob :
-  gclass wit_empty 1 0 = Some EmptyPartS3Blob /\
+Lemma empty_part_s3_blob_repaired :
   gown wit_empty 1 0 = Some [] /\
-  gread true wit_empty 1 0 [] = Some (Some crlf) /\
-  violates true wit_empty 1 0 [] = true.
+  gread true wit_empty 1 0 [] = Some (Some []) /\
+  gread false wit_empty 1 0 [] = Some (Some []) /\
+  violates true wit_empty 1 0 [] = false /\
+  map b_refs (w_blobs (grun wit_empty)) = [1].
 Proof. vm_compute. repeat split; reflexivity. Qed.
+
+Lemma old_empty_part_violates_spec : spec_read_ok [] false (Some crlf) = false.
+Proof. vm_compute. reflexivity. Qed.
 
 (** delivery stores to the object store, the reading side has S3 disabled:
     since the repair "blob-read-errors" the read is an error, as the spec demands *)
 Definition wit_config : list event := [EStore true [] [] [mkPart [] (S_ "hello world") true]].
 
 Lemma config_mismatch_is_error :
-  gclass wit_config 0 0 = None /\
   gfailed false wit_config 0 0 [] = true /\
   gread false wit_config 0 0 [] = Some None /\
   violates false wit_config 0 0 [] = false /\
@@ -116,6 +114,5 @@ Lemma faults_example :
   gread false wit_faults 0 0 [] = Some (Some (S_ "part one")) /\
   gread false wit_faults 1 0 [] = Some (Some (S_ "part two")) /\
   gread true wit_faults 2 1 [] = Some (Some (S_ "part three")) /\
-  map b_refs (w_blobs (grun wit_faults)) = [1; 2] /\
-  gclass wit_faults 2 1 = None.
+  map b_refs (w_blobs (grun wit_faults)) = [1; 2].
 Proof. vm_compute. repeat split; reflexivity. Qed.
